@@ -123,7 +123,34 @@ std::string gen_config(const Profile &p) {
 
 // ---- operations ------------------------------------------------------------
 enum OpK { PUT, DEL, BATCH, GET, HAS, FLUSH, CRANGE, COMPACT, REOPEN, SNAP, RELEASE, ITER_NEW, ITER, ITER_DEL, CHECK, FILL, READS, PROP, APPROX, GETSNAP,
-           REPAIR, BACKUP, BCHECK, COPY, DESTROY, LOCKPROBE, BADOPEN };
+           REPAIR, BACKUP, BCHECK, COPY, DESTROY, LOCKPROBE, BADOPEN, FOREIGN };
+
+// A name that is NOT one of the database's own (CURRENT, LOCK, LOG, LOG.old, MANIFEST-[0-9]+, [0-9]+.(log|sst|ldb|dbtmp))
+// but is one edit away from one: the runner re-checks that with its own parser and drops anything owned.
+std::string gen_foreign_name() {
+  static const char *bases[] = {"CURRENT", "LOCK", "LOG", "LOG.old", "MANIFEST-000005", "000007.log", "000009.ldb", "000011.sst", "000013.dbtmp", "MANIFEST-", "12"};
+  std::string b = bases[uni(0, 10)];
+  if (isdigit((unsigned char)b[0]) && chance(50)) { size_t dot = b.find('.'); b = fmt("%0*d", uni(1, 7), uni(0, 99999)) + (dot == std::string::npos ? "" : b.substr(dot)); }
+  static const char *suffix[] = {".1", ".old", ".bak", "~", "x", "-2", ".log", ".ldb", ".tmp", "0", "_", ".OLD", ".old.1"};
+  static const char *prefix[] = {"x", "_", ".", "0x", "-", "a0", "old."};
+  static const char *ext[] = {".txt", ".ldbx", ".lo", ".LOG", ".LDB", ".sstx", ".db", ".tmp", ".dbtm", ".l", ""};
+  switch (uni(0, 7)) {
+    case 0: case 1: b += suffix[uni(0, 12)]; break;
+    case 2: b = prefix[uni(0, 6)] + b; break;
+    case 3: for (auto &ch : b) ch = (char)tolower((unsigned char)ch); if (chance(50)) b += suffix[uni(0, 12)]; break;
+    case 4: { size_t dot = b.rfind('.'); if (dot != std::string::npos) b = b.substr(0, dot) + ext[uni(0, 10)]; else b += ext[uni(0, 9)]; break; }
+    case 5: { size_t pos = (size_t)uni(0, (int)b.size()); b.insert(pos, 1, "xA-_.~z"[uni(0, 6)]); break; }
+    case 6: { size_t dot = b.rfind('.'); if (dot != std::string::npos) b.erase(dot, 1); else b += "."; break; }
+    case 7: if (b.size() > 1) b.erase((size_t)uni(0, (int)b.size() - 1), 1); else b += "q"; break;
+  }
+  return b;
+}
+std::string gen_foreign_args() {
+  std::string s;
+  int n = uni(2, 6);
+  for (int i = 0; i < n; i++) s += " t" + gen_foreign_name();
+  return s;
+}
 
 std::string gen_iter_action(const Profile &p) {
   int id = (!p.iters.empty() && chance(92)) ? pick_from(p.iters) : uni(0, 3);
@@ -227,7 +254,8 @@ std::string gen_op(Profile &p, const std::vector<std::pair<int, OpK>> &weights) 
     case BACKUP: return "backup";
     case BCHECK: return "bcheck";
     case COPY: p.iters.clear(); p.snaps.clear(); return "copy";
-    case DESTROY: p.iters.clear(); p.snaps.clear(); p.used.clear(); return "destroy";
+    case DESTROY: p.iters.clear(); p.snaps.clear(); p.used.clear(); return "destroy" + gen_foreign_args();
+    case FOREIGN: return "foreign" + gen_foreign_args();
     case LOCKPROBE: return "lockprobe";
     case BADOPEN: p.iters.clear(); p.snaps.clear(); return fmt("badopen %d", uni(0, 2));
   }
@@ -250,7 +278,7 @@ std::vector<std::pair<int, OpK>> weights_for(const std::string &kind) {
   if (kind == "C20")
     return {{30, PUT}, {8, DEL}, {6, BATCH}, {4, GET}, {8, FLUSH}, {7, CRANGE}, {1, COMPACT}, {3, REOPEN},
             {2, SNAP}, {1, RELEASE}, {2, ITER_NEW}, {3, ITER}, {1, ITER_DEL}, {2, CHECK}, {1, FILL},
-            {8, BACKUP}, {3, BCHECK}, {3, COPY}, {2, DESTROY}, {4, LOCKPROBE}, {5, BADOPEN}};
+            {8, BACKUP}, {3, BCHECK}, {3, COPY}, {3, DESTROY}, {4, LOCKPROBE}, {5, BADOPEN}, {3, FOREIGN}};
   if (kind == "C17")
     return {{26, PUT}, {8, DEL}, {6, BATCH}, {2, GET}, {12, FLUSH}, {12, CRANGE}, {3, COMPACT}, {12, REOPEN},
             {2, SNAP}, {1, RELEASE}, {1, ITER_NEW}, {1, ITER}, {1, CHECK}, {3, FILL}, {1, READS}};
